@@ -135,6 +135,18 @@ def check_path(e, p, inv, kinds, backend):
                     y = f"<Y{inv}_{exp['o']}>"
                     if dshow not in (y, y + "/ANALYSIS.root"):
                         viol.append(f"-o operand {y} is not where the output was delivered ({dshow})")
+                    elif inv == 0 and dshow == y + "/ANALYSIS.root":
+                        # inside Y only if Y was a directory when the script started; a path that does not exist yet, or a
+                        # file, names the output file itself
+                        ykey = next((k for k in e.facts if k[0] == "isdir" and shx.show(k[1]) == y), None)
+                        if ykey is not None:
+                            sol = z3.Solver()
+                            sol.set("timeout", 5000)
+                            sol.add(*e.solver.assertions())
+                            sol.add(*p.pc)
+                            sol.add(z3.Not(z3.And(e.fact("exists", ykey[1]), e.fact("isdir", ykey[1]))))
+                            if sol.check() == z3.sat:
+                                viol.append(f"-o operand {y} did not name a directory when the script started, yet the output was delivered INSIDE it ({dshow}) instead of AT it")
                 else:
                     if dshow not in ("/results", "/results/ANALYSIS.root"):
                         viol.append(f"default destination is /results, delivered to {dshow}")
